@@ -127,6 +127,7 @@ const preamble = `(set-option :produce-models true)
 (define-fun tdiv ((a Int) (b Int)) Int (ite (>= a 0) (ite (> b 0) (div a b) (- (div a (- b)))) (ite (> b 0) (- (div (- a) b)) (div (- a) (- b)))))
 (define-fun trem ((a Int) (b Int)) Int (- a (* b (tdiv a b))))
 (declare-fun ep (Int Int) Int)
+(assert (forall ((a Int) (i Int)) (! (= (mod (ep a i) 2) 1) :pattern ((ep a i)))))
 (declare-fun ix (Int Int) Int)
 (assert (forall ((a Int) (b Int)) (! (= (ix a b) (+ a b)) :pattern ((ix a b)))))
 (declare-fun bxor (Int Int) Int)
